@@ -67,6 +67,7 @@ func cmdCheck(args []string) int {
 	id := args[0]
 	fs := flag.NewFlagSet("check", flag.ExitOnError)
 	tier := fs.String("tier", "", "quick|thorough")
+	only := fs.String("only", "", "development: run only the harnesses whose name contains this string (evidence goes to $VERIF_DIR/evidence/dev)")
 	fs.Parse(args[1:])
 	if *tier == "" {
 		*tier = os.Getenv("VERIF_TIER")
@@ -82,10 +83,14 @@ func cmdCheck(args []string) int {
 		return 2
 	}
 	t0 := time.Now()
-	evPath := filepath.Join(verifDir, "evidence", id+".json")
-	os.MkdirAll(filepath.Join(verifDir, "evidence", "cex"), 0o755)
+	evDir := filepath.Join(verifDir, "evidence")
+	if *only != "" {
+		evDir = filepath.Join(verifDir, "evidence", "dev")
+	}
+	evPath := filepath.Join(evDir, id+".json")
+	os.MkdirAll(filepath.Join(evDir, "cex"), 0o755)
 	os.Remove(evPath)
-	if old, _ := filepath.Glob(filepath.Join(verifDir, "evidence", "cex", id+"-*.json")); len(old) > 0 {
+	if old, _ := filepath.Glob(filepath.Join(evDir, "cex", id+"-*.json")); len(old) > 0 {
 		for _, f := range old {
 			os.Remove(f)
 		}
@@ -114,6 +119,9 @@ func cmdCheck(args []string) int {
 			continue
 		}
 		if hs.QuickOnly && *tier == "thorough" {
+			continue
+		}
+		if *only != "" && !strings.Contains(hs.Name, *only) {
 			continue
 		}
 		x, err := sx.NewExplorer(prog, hs.Name)
@@ -203,6 +211,12 @@ func cmdCheck(args []string) int {
 		}
 
 		// failures: dedupe per assertion id, replay before reporting
+		replaySiblings = map[string]bool{}
+		for _, f := range x.Failures {
+			if f.Kind == "assert" && f.Known == "" {
+				replaySiblings[f.AssertID] = true
+			}
+		}
 		byID := map[string][]*sx.Failure{}
 		var ids []string
 		for _, f := range x.Failures {
@@ -252,7 +266,7 @@ func cmdCheck(args []string) int {
 			for i := 0; i < len(fl) && i < 3 && !reported; i++ {
 				f := fl[i]
 				cexN++
-				path := filepath.Join(verifDir, "evidence", "cex", fmt.Sprintf("%s-%d.json", id, cexN))
+				path := filepath.Join(evDir, "cex", fmt.Sprintf("%s-%d.json", id, cexN))
 				writeCex(path, id, hs.Name, f)
 				if hs.Replay == "race" {
 					ok, note := replayRace(hs.Name, f.Inputs)
